@@ -209,6 +209,10 @@ def compare(fw, py, *, timing: bool = True, tol_pins=frozenset(), servo_tol: flo
             if k == "SER":
                 ok = ser_equal(a, b)
                 why = "serial text differs"
+                if ok and a.get("nobegin"):
+                    # the line was printed before any Serial.begin(): on hardware nothing is transmitted
+                    ok = False
+                    why = "serial line printed before Serial.begin()"
             elif k == "LVL":
                 if a["pin"] == b["pin"]:
                     tol = 1 if a["pin"] in tol_pins else 0
